@@ -140,7 +140,12 @@ LogDecode log_decode(const std::string &f) {
         p = bend; break;
       }
       if (type == 0 && len == 0) {
-        snprintf(msg, sizeof msg, "zero header at offset %zu", p);
+        // A zero header followed by nothing but zeros up to the end of the block is indistinguishable from a
+        // preallocated / zero-extended region (a legal tail): skipped silently.  Followed by data: bytes are dropped.
+        bool all_zero = true;
+        for (size_t q = p; q < bend; q++) if (f[q] != 0) { all_zero = false; break; }
+        if (all_zero) { if (in_frag) { in_frag = false; cur.clear(); } resync_drop = true; p = bend; break; }
+        snprintf(msg, sizeof msg, "zero header at offset %zu followed by non-zero bytes in the same block", p);
         out.problems.push_back(msg);
         if (in_frag) { in_frag = false; cur.clear(); }
         resync_drop = true;
